@@ -283,10 +283,18 @@ def main(tier):
         units.append(('seq', f, 1, tuple(all_inputs + alt_inputs)))
         units.append(('seq', f, 2, tuple(pair_inputs)))
     if rep.tier == 'thorough':
-        for f in letters:
+        # all triples that start with a group-level option or with every
+        # 6th letter of the alphabet (the whole cube takes over an hour)
+        gl = ['--disable-all'] + [x for x in letters if x[2:] in groups
+                                  or x[5:] in groups]
+        firsts = [f for i, f in enumerate(letters) if f in gl or i % 6 == 0]
+        for f in firsts:
             for g in letters:
                 units.append(('seq', (f, g), 3,
                               ((0, 0), (31, 0), (21, 0), (10, 0))))
+        for x in gl:
+            for m in letters:
+                units.append(('sandwich', (x, m), gl))
     else:
         # VERIF_SEED rotates which slice of the length-3 space a quick run
         # adds on top of the fixed core
@@ -315,7 +323,7 @@ def main(tier):
         ' --<group>, --no-<group>, --disable-all) x inputs declaring subsets '
         '(length <= 1: all 32 subsets; length 2: 12 subsets quick / 32 thorough) '
         'of {arithmetic,bv,datatypes,fp,strings} (+ alternative '
-        'declaration forms); length 3: all in thorough, the slice starting '
+        'declaration forms); length 3: thorough - all triples starting with a group-level option or every 6th letter; quick - the slice starting '
         'with letter VERIF_SEED mod alphabet plus all (group-level, any, group-level) triples in quick. distinct_nontrivial = '
         'cases whose expected enabled set differs from "all mutators"')
     rep.set('exhaustive', True)
